@@ -17,7 +17,15 @@ pub struct JournalG {
 #[derive(PartialEq, Eq)]
 pub enum ApplyKind { Insert, Remove, RemoveWeak, Clear }
 pub struct ApplyG { pub kind: ApplyKind, pub key: Seq<u8>, pub value: Seq<u8>, pub seqno: u64 }
-pub struct TreeG { pub applied: Seq<ApplyG>, pub manual_persist: bool }
+pub struct TreeG {
+    pub applied: Seq<ApplyG>, pub manual_persist: bool,
+    pub persisted: Option<u64>,     // highest seqno in the tree's tables (lsm-tree get_highest_persisted_seqno)
+    pub mem_max: Option<u64>,       // highest seqno in active + sealed memtables (get_highest_memtable_seqno)
+    pub active_max: Option<u64>,    // highest seqno in the ACTIVE memtable only
+}
+/// one eviction watermark of a sealed journal: keyspace id and the highest seqno of that keyspace in the journal
+pub struct WmG { pub ks: u64, pub lsn: u64 }
+pub struct SealedG { pub path: int, pub wms: Seq<WmG> }
 pub struct TrackerG {
     pub data: Map<u64, usize>,      // the DashMap instant -> open count
     pub freed: u64,                 // lowest_freed_instant = the GC watermark handed to lsm-tree
@@ -46,6 +54,8 @@ pub struct World {
     pub deleted: Map<int, bool>,    // keyspace deleted flags by identity
     pub trees: Map<u64, TreeG>,     // by keyspace id
     pub db_poison: int,             // identity of the database's poison flag
+    pub sealed: Seq<SealedG>,       // sealed journal files still on disk, OLDEST FIRST, with their recorded watermarks
+    pub removed: Seq<int>,          // journal files unlinked so far (path identities), in order
     pub tracker: TrackerG,          // snapshot tracker (its counter is `visible`)
     pub recovering: bool,           // inside Database::recover/create_new: no other thread has a handle yet
     pub db_manual_persist: bool,    // Config::manual_journal_persist of the database (governs batches and transactions)
@@ -156,7 +166,7 @@ pub enum PersistMode { Buffer, SyncData, SyncAll }
 pub open spec fn journal_appended(o: World, n: World) -> bool {
     // only the journal changed, and only by appending
     n.seqno == o.seqno && n.visible == o.visible && n.inflight == o.inflight && n.poison == o.poison && n.deleted == o.deleted
-    && n.trees == o.trees && n.db_poison == o.db_poison && n.journal.locked == o.journal.locked && n.poison_checked == o.poison_checked && n.db_manual_persist == o.db_manual_persist && n.tracker == o.tracker && n.recovering == o.recovering
+    && n.trees == o.trees && n.db_poison == o.db_poison && n.journal.locked == o.journal.locked && n.poison_checked == o.poison_checked && n.db_manual_persist == o.db_manual_persist && n.tracker == o.tracker && n.recovering == o.recovering && n.sealed == o.sealed && n.removed == o.removed
     && n.journal.len >= o.journal.len && n.journal.os_len >= o.journal.os_len && n.journal.os_len <= n.journal.len
     && n.journal.synced_len == o.journal.synced_len
 }
@@ -187,7 +197,7 @@ impl Writer {
             r is Err ==> final(w).journal.failed && final(w).journal.recs == old(w).journal.recs && final(w).pending == old(w).pending,
     { unimplemented!() }
     #[verifier::external_body]
-    pub fn write_batch(&mut self, items: &[Item], batch_size: usize, seqno: u64, Tracked(w): Tracked<&mut World>) -> (r: Result<usize, Error>)
+    pub fn write_batch(&mut self, items: &[BatchItem], batch_size: usize, seqno: u64, Tracked(w): Tracked<&mut World>) -> (r: Result<usize, Error>)
         requires old(w).journal.locked, // [C02:P-LOCK-journal]
                  old(w).poison_checked, // [C13:P-POISON-checked-under-lock]
                  old(w).inflight == Some(seqno), // [C06:record-carries-drawn-seqno]
@@ -206,13 +216,32 @@ impl Writer {
         requires old(w).journal.locked, // [C09:P-LOCK-persist] [C02:P-LOCK-journal]
         ensures
             final(w).seqno == old(w).seqno && final(w).visible == old(w).visible && final(w).inflight == old(w).inflight && final(w).poison == old(w).poison
-                && final(w).deleted == old(w).deleted && final(w).trees == old(w).trees && final(w).db_poison == old(w).db_poison && final(w).pending == old(w).pending && final(w).poison_checked == old(w).poison_checked && final(w).db_manual_persist == old(w).db_manual_persist && final(w).tracker == old(w).tracker && final(w).recovering == old(w).recovering,
+                && final(w).deleted == old(w).deleted && final(w).trees == old(w).trees && final(w).db_poison == old(w).db_poison && final(w).pending == old(w).pending && final(w).poison_checked == old(w).poison_checked && final(w).db_manual_persist == old(w).db_manual_persist && final(w).tracker == old(w).tracker && final(w).recovering == old(w).recovering && final(w).sealed == old(w).sealed && final(w).removed == old(w).removed,
             final(w).journal.locked, final(w).journal.recs == old(w).journal.recs, final(w).journal.len == old(w).journal.len,
             final(w).journal.os_len >= old(w).journal.os_len && final(w).journal.os_len <= final(w).journal.len,
             final(w).journal.synced_len >= old(w).journal.synced_len && final(w).journal.synced_len <= final(w).journal.os_len,
             r is Ok ==> final(w).journal.os_len == old(w).journal.len && final(w).journal.failed == old(w).journal.failed,
             r is Ok && mode != PersistMode::Buffer ==> final(w).journal.synced_len == old(w).journal.len,
             r is Err ==> final(w).journal.failed,
+    { unimplemented!() }
+}
+impl Writer {
+    #[verifier::external_body]
+    pub fn len(&self, Tracked(w): Tracked<&mut World>) -> (r: Result<u64, Error>)
+        ensures *final(w) == *old(w),
+    { unimplemented!() }
+    // world-level contract of Writer::rotate (U-WRITER): old journal persisted with SyncAll, then the next file is
+    // created and the directory synced; the sealed file keeps every record
+    #[verifier::external_body]
+    pub fn rotate(&mut self, Tracked(w): Tracked<&mut World>) -> (r: Result<(PathBuf, PathBuf), Error>)
+        requires old(w).journal.locked, // [C10:rotate-under-journal-lock] [C09:rotate-under-journal-lock]
+        ensures
+            final(w).journal.locked, final(w).journal.recs == old(w).journal.recs, final(w).journal.len == old(w).journal.len,
+            final(w).journal.os_len >= old(w).journal.os_len && final(w).journal.os_len <= final(w).journal.len,
+            final(w).journal.synced_len >= old(w).journal.synced_len && final(w).journal.synced_len <= final(w).journal.os_len,
+            r is Ok ==> final(w).journal.synced_len == old(w).journal.len && final(w).journal.failed == old(w).journal.failed, // [C09:rotate-syncs-old-journal]
+            r is Err ==> final(w).journal.failed || final(w).journal == old(w).journal,
+            *final(w) == (World { journal: final(w).journal, ..*old(w) }),
     { unimplemented!() }
 }
 pub struct MutexGuard<'a, T> { pub w: &'a mut T }
@@ -443,3 +472,55 @@ impl ShimDrop for GcWriteGuard {
 pub proof fn ghost_set_live(tracked w: &mut World, l: Map<u64, nat>)
     ensures *final(w) == (World { tracker: TrackerG { live: l, ..old(w).tracker }, ..*old(w) }),
 { unimplemented!() }
+
+// ---------------------------------------------------------------- journal eviction (C10): P-EVICT, oldest first
+/// P-EVICT: a watermark is satisfied when its keyspace was deleted or its tables cover the watermark
+pub open spec fn wm_ok(wm: WmG, w: World) -> bool {
+    (w.deleted.dom().contains(wm.ks as int) && w.deleted[wm.ks as int])
+    || (w.trees.dom().contains(wm.ks) && w.trees[wm.ks].persisted is Some && w.trees[wm.ks].persisted->Some_0 >= wm.lsn)
+}
+pub open spec fn evictable(s: SealedG, w: World) -> bool { forall|j: int| 0 <= j < s.wms.len() ==> wm_ok(#[trigger] s.wms[j], w) }
+pub struct PathBuf { pub id: Ghost<int> }
+impl Clone for PathBuf {
+    #[verifier::external_body]
+    fn clone(&self) -> (r: PathBuf) ensures r.id == self.id { unimplemented!() }
+}
+/// std::fs::remove_file on a sealed journal file
+#[verifier::external_body]
+pub fn fs_remove_file(p: &PathBuf, Tracked(w): Tracked<&mut World>) -> (r: Result<(), IoError>)
+    requires old(w).sealed.len() > 0 && old(w).sealed[0].path == p.id@, // [C10:oldest-first]
+             evictable(old(w).sealed[0], *old(w)), // [C10:P-EVICT] [C02:P-EVICT]
+    ensures r is Ok ==> *final(w) == (World { sealed: old(w).sealed.skip(1), removed: old(w).removed.push(p.id@), ..*old(w) }),
+            r is Err ==> *final(w) == *old(w),
+{ unimplemented!() }
+#[verifier::external_body]
+pub proof fn ghost_push_sealed(tracked w: &mut World, s: SealedG)
+    ensures *final(w) == (World { sealed: old(w).sealed.push(s), ..*old(w) }),
+{ unimplemented!() }
+impl AnyTree {
+    // lsm-tree AbstractTree accessors (reads of monotone state: a concurrent flush can only raise `persisted`)
+    #[verifier::external_body]
+    pub fn get_highest_persisted_seqno(&self, Tracked(w): Tracked<&mut World>) -> (r: Option<u64>)
+        requires old(w).trees.dom().contains(self.id@),
+        ensures *final(w) == *old(w), r == old(w).trees[self.id@].persisted,
+    { unimplemented!() }
+    #[verifier::external_body]
+    pub fn get_highest_memtable_seqno(&self, Tracked(w): Tracked<&mut World>) -> (r: Option<u64>)
+        requires old(w).trees.dom().contains(self.id@),
+        ensures *final(w) == *old(w), r == old(w).trees[self.id@].mem_max,
+    { unimplemented!() }
+    #[verifier::external_body]
+    pub fn active_memtable(&self) -> (r: Memtable) ensures r.tree == self.id { unimplemented!() }
+}
+pub struct Memtable { pub tree: Ghost<u64> }
+impl Memtable {
+    #[verifier::external_body]
+    pub fn get_highest_seqno(&self, Tracked(w): Tracked<&mut World>) -> (r: Option<u64>)
+        requires old(w).trees.dom().contains(self.tree@),
+        ensures *final(w) == *old(w), r == old(w).trees[self.tree@].active_max,
+    { unimplemented!() }
+    #[verifier::external_body]
+    pub fn size(&self) -> (r: u64) { unimplemented!() }
+    #[verifier::external_body]
+    pub fn id(&self) -> (r: u64) { unimplemented!() }
+}
